@@ -159,12 +159,18 @@ func c11(c *Ctx) {
 			}
 			for j := 0; j < nl; j++ {
 				k := genCfgKey(r)
-				v := Pick(r, []string{"x", "http://evil.example/", "basic", "/bin/false", "true", "0", "a=b"})
+				v := Pick(r, []string{"x", "http://evil.example/", "basic", "/bin/false", "true", "0", "a=b", "", ""})
 				if r.Chance(3) {
 					ls = append(ls, k) // a line without '='
 				} else {
 					ls = append(ls, k+"="+v)
 				}
+			}
+			if s == 1 && len(cc.Sources[0]) > 0 && r.Chance(40) {
+				// Git's own configuration sets a key that the repository's file also sets — to another value,
+				// possibly the empty one (the way to cancel a setting the repository supplies)
+				k := strings.SplitN(Pick(r, cc.Sources[0]), "=", 2)[0]
+				ls = append(ls, k+"="+Pick(r, []string{"", "", "mine", "false"}))
 			}
 			cc.Sources = append(cc.Sources, ls)
 			cc.Safe = append(cc.Safe, s == 0 && (ns == 2 || r.Chance(80)))
@@ -179,6 +185,7 @@ func c11(c *Ctx) {
 	if err != nil {
 		c.R.Add(Finding{Kind: "diff", What: "oracle process failed: " + err.Error(), Broken: "corr.C11.read"})
 	}
+	var getLines, getImpl, getCase []string
 	oldStderr := os.Stderr
 	devnull, _ := os.OpenFile(os.DevNull, os.O_WRONLY, 0)
 	os.Stderr = devnull // readGitConfig prints its "ignored" warning there
@@ -225,11 +232,44 @@ func c11(c *Ctx) {
 				}
 			}
 		}
+		// the lookup the consumers use (GitFetcher.Get), for one key of the case: against the model's `get` and,
+		// when Git's own configuration sets the key, against Git's value — empty or not
+		if len(cc.Sources) > 0 && len(cc.Sources[len(cc.Sources)-1]) > 0 {
+			last := cc.Sources[len(cc.Sources)-1]
+			key := strings.ToLower(strings.SplitN(last[len(last)-1-(i%2)*((i*7)%len(last))%len(last)], "=", 2)[0])
+			gv, gok := config.VerifGet(key, srcs...)
+			gimpl := "none"
+			if gok {
+				gimpl = "some:" + hx([]byte(gv))
+			}
+			getLines = append(getLines, "C11 get "+strings.TrimPrefix(lines[i], "C11 read ")+" "+hx([]byte(key)))
+			getImpl = append(getImpl, gimpl)
+			getCase = append(getCase, lines[i]+" key="+key)
+			if len(cc.Sources) == 2 && cc.Safe[0] && !cc.Safe[1] {
+				// Git's own value for the key, read off the lines themselves
+				own, ok := "", false
+				for _, l := range cc.Sources[1] {
+					if kv := strings.SplitN(l, "=", 2); len(kv) == 2 && strings.ToLower(kv[0]) == key {
+						own, ok = kv[1], true
+					}
+				}
+				if ok && (!gok || gv != own) {
+					c.R.Add(Finding{Kind: "oracle", What: "a value set in git's own configuration did not win over .lfsconfig", Case: lines[i], Impl: fmt.Sprintf("lookup of %s gives %q, git's own configuration says %q", key, gv, own)})
+				}
+			}
+		}
 		if model != nil && model[i] != impl {
 			c.R.Add(Finding{Kind: "diff", What: "readGitConfig: model and implementation disagree", Case: lines[i], Impl: clip(impl, 500), Model: clip(model[i], 500), Broken: "corr.C11.read"})
 		}
 	}
 	os.Stderr = oldStderr
+	if ans, err := c.Or.Ask(getLines); err == nil {
+		for k := range getLines {
+			if ans[k] != getImpl[k] {
+				c.R.Add(Finding{Kind: "diff", What: "the configuration lookup (last value wins): model and implementation disagree", Case: clip(getCase[k], 1500), Impl: getImpl[k], Model: ans[k], Broken: "corr.C11.get"})
+			}
+		}
+	}
 	if c.Replay == "" {
 		c11EndToEnd(c, r)
 		c11Precedence(c, r.Fork())
